@@ -236,8 +236,20 @@ func (p *Proof) ChallengeContributions(key *gabikeys.PublicKey) []*big.Int {
 		p.Challenge, key, (*proof)(p), (*proof)(p))
 }
 
+// invertible reports whether x represents an element of the multiplicative group modulo n
+// (x need not be reduced: a refreshed proof commitment carries C_u unreduced).
+func invertible(x, n *big.Int) bool {
+	y := new(big.Int).Mod(x, n)
+	return x.Sign() > 0 && y.Sign() > 0 && new(big.Int).GCD(nil, nil, y, n).Cmp(bigOne) == 0
+}
+
 func (p *Proof) VerifyWithChallenge(pk *gabikeys.PublicKey, reconstructedChallenge *big.Int) bool {
 	if !proofstructure.verifyProofStructure((*proof)(p)) {
+		return false
+	}
+	// The commitments must be group elements. With C_u = 0 (mod n) every power of C_u is 0, so the
+	// relation nu = C_u^alpha * h^-beta would be "proven" for any accumulator without any witness.
+	if !invertible(p.Cr, pk.N) || !invertible(p.Cu, pk.N) {
 		return false
 	}
 	if (*proof)(p).ProofResult("alpha").Cmp(Parameters.bTwoZk) > 0 {
